@@ -781,14 +781,14 @@ def g_exact( ctx ):
             if isinstance( p_, ast.Name ):
                 p_ = lambdas.get( p_.id )
             return p_ if isinstance( p_, ast.Lambda ) else None
-        def holds( lam, text, count ):
+        def holds( lam, text, count, more=True ):
             class Sub( ast.NodeTransformer ):
                 def visit_Attribute( self, n ):
                     t_ = txt( n ).replace( ' ', '' )
                     if t_ == 'data[path].string': return ast.Constant( value=text )
                     if t_ == 'data[path].length': return ast.Constant( value=count )
                     return self.generic_visit( n ) or n
-            v = try_fold( Sub().visit( ast.parse( ast.unparse( lam.body ), mode='eval' ).body ), {}, default=NoFold )
+            v = try_fold( Sub().visit( ast.parse( ast.unparse( lam.body ), mode='eval' ).body ), { 'source.peek': lambda: ( 0x41 if more else None ) }, default=NoFold )
             if v is NoFold:
                 raise AnalysisError( '%s.__init__: predicate outside the modelled subset: %s' % ( cname, norm_text( lam.body )[:80] ))
             return bool( v )
@@ -802,7 +802,20 @@ def g_exact( ctx ):
                     continue
                 bad = ( a, 'an unconditional way out of the text state' )
                 break
-            short = [ ( t, c ) for t, c in (( 'abc', 5 ), ( 'abc', 4 ), ( '', 1 ), ( 'abcd', 9 ), ( 'a', 2 )) if holds( lam, t, c ) ]
+            short = [ ( t, c ) for t, c in (( 'abc', 5 ), ( 'abc', 4 ), ( '', 1 ), ( 'abcd', 9 ), ( 'a', 2 )) if holds( lam, t, c ) or holds( lam, t, c, more=False ) ]
+            # STRING: a text of odd length is followed by a pad octet, which belongs to the value ( L-STRLEN: produce emits it ).  The way out to
+            # a terminal state that consumes nothing is therefore closed for every odd count, whatever is left of the input - "nothing left, so
+            # no pad to drop" accepts a value cut off one octet short
+            st_kw = [ k.value for k in a.value.keywords if k.arg == 'state' ]
+            direct = bool( st_kw ) and isinstance( st_kw[0], ast.Call ) and ( call_name( st_kw[0] ) or '' ).endswith( 'octets_noop' ) \
+                and any( k.arg == 'terminal' and try_fold( k.value ) for k in st_kw[0].keywords )
+            pads = any( is_call_to( x.value, 'octets_drop' ) for x in exits )
+            if not short and direct and pads:
+                odd = [ ( t, c, m ) for t, c in (( 'abc', 3 ), ( 'a', 1 ), ( 'abcde', 5 )) for m in ( True, False ) if holds( lam, t, c, more=m ) ]
+                if odd:
+                    bad = ( a, 'the way out %s to a terminal state is taken for a complete text of odd length %d%s: its pad octet is not awaited' % (
+                        norm_text( a.targets[0] ), odd[0][1], '' if odd[0][2] else ' when no input is left' ))
+                    break
             if short:
                 bad = ( a, 'the way out %s is taken for a text of %d octets under a count of %d' % ( norm_text( a.targets[0] ), len( short[0][0] ), short[0][1] ))
                 break
